@@ -22,6 +22,9 @@ import (
 )
 
 func Run(o *hx.Opts, w *lineio.Writer) error {
+	if ctl := os.Getenv(pluginEnv); ctl != "" {
+		return pluginMain(ctl)
+	}
 	if os.Getenv(workerEnv) != "" {
 		return workerMain(o.Scratch)
 	}
@@ -179,7 +182,10 @@ func (p *proc) do(id string, in *In) (*Obs, error) {
 	if _, err := p.stdin.Write(append(b, '\n')); err != nil {
 		// the worker died before reading: treat as a crash of this case
 		p.kill()
-		return &Obs{Outcome: "crashed", Panic: "worker not accepting input", Attempts: []Attempt{}, Plan: []ChunkObs{}, Calls: []CallObs{}, Returned: []int{}, RtUpdates: []int{}}, nil
+		ob := emptyObs()
+		ob.Outcome, ob.Panic = "crashed", "worker not accepting input"
+		sizesInto(ob, in)
+		return ob, nil
 	}
 	limit := reqTimeout() + 60*time.Second
 	select {
@@ -217,7 +223,7 @@ func (p *proc) do(id string, in *In) (*Obs, error) {
 
 func emptyObs() *Obs {
 	return &Obs{Attempts: []Attempt{}, Plan: []ChunkObs{}, Calls: []CallObs{}, Returned: []int{}, RtUpdates: []int{},
-		PodSizes: [][2]int{}, CtrSizes: [][2]int{}}
+		PodSizes: [][2]int{}, CtrSizes: [][2]int{}, Plugins: []PluginObs{}}
 }
 
 // sizesInto measures the encoded object sizes in the parent (the worker that would have
@@ -251,7 +257,7 @@ func mk(stream, note string, pods, ctrs [][2]int) *In {
 	if ctrs == nil {
 		ctrs = [][2]int{}
 	}
-	return &In{Kind: "sync", Pods: pods, Ctrs: ctrs, Handler: "record", Updates: 0,
+	return &In{Kind: "sync", Pods: pods, Ctrs: ctrs, Handler: "record", Updates: 0, Plugins: []PluginIn{},
 		Limit: ttrpcLimit, MinObjs: minObjs, Stream: stream, Note: note}
 }
 
@@ -480,6 +486,43 @@ func huge(o *hx.Opts) []*In {
 	return out
 }
 
+// preinstalled: plugins launched by Adaptation.Start and synchronized by its `syncPlugins`.
+func preinstalled(rng *rand.Rand, n int) []*In {
+	states := []struct {
+		note       string
+		pods, ctrs [][2]int
+	}{
+		{"single message", run1(2, tiny), run1(3, kb)},
+		{"split, transmissible", run1(5, kb), run1(30, 300_000)},
+		{"split, minimum chunk fits", run1(3, tiny), run1(12, 500_000)},
+		{"not transmissible (4 x 1MiB)", run1(3, tiny), run1(12, mb)},
+		{"2 pods + 40 x 300KB", run1(2, tiny), run1(40, 300_000)},
+		{"empty state", nil, nil},
+		{"many small", run1(300, kb), run1(900, kb)},
+		{"growing sizes", run1(20, kb), [][2]int{{40, 20_000}, {20, 200_000}, {6, mbDec}}},
+	}
+	combos := [][]PluginIn{
+		{{"10", "a", "record", 2}},
+		{{"10", "a", "error", 0}, {"20", "b", "record", 1}},
+		{{"10", "a", "record", 1}, {"20", "b", "none", 0}, {"30", "c", "record", 2}},
+		{{"05", "a", "none", 0}, {"50", "b", "error", 0}},
+		{{"10", "a", "record", 0}, {"10", "b", "record", 3}},
+	}
+	var out []*In
+	for i := 0; i < n; i++ {
+		st := states[i%len(states)]
+		in := mk("pre", st.note, st.pods, st.ctrs)
+		in.Kind = "pre"
+		in.Handler = ""
+		in.Plugins = combos[rng.Intn(len(combos))]
+		if i < len(combos) {
+			in.Plugins = combos[i]
+		}
+		out = append(out, in)
+	}
+	return out
+}
+
 func generate(o *hx.Opts) []*In {
 	var out []*In
 	out = append(out, witnesses()...)
@@ -511,5 +554,6 @@ func generate(o *hx.Opts) []*In {
 	out = append(out, boundary(o.Rand(3))...)
 	out = append(out, handlers(o.Rand(4))...)
 	out = append(out, unsendable(o.Rand(5))...)
+	out = append(out, preinstalled(o.Rand(6), o.N(16, 80))...)
 	return out
 }
